@@ -211,6 +211,8 @@ const std::vector<Witness>& witnesses() {
     {"lazy-product-proper-subset", "{1}\xC3\x97X2\xE2\x8A\x82{2}\xC3\x97X2", true, false, ""},
     {"declarative-domain-redeclares-pattern-names", "D{(a,b)\xE2\x88\x88" "D{(a,b)\xE2\x88\x88S1|a=a}|b=D1}", false, false, "{(1,2)}"},
     {"arithmetic-overflow-is-an-error", "card(X1)*1000000*1000000>0", true, false, "LIMIT"},
+    {"tuple-patterns-concatenating-to-one-name", "\xE2\x88\x80(a,bc)\xE2\x88\x88S1 \xE2\x88\x80(ab,c)\xE2\x88\x88S1 bc=c", true, false, ""},
+    {"tuple-patterns-concatenating-to-one-name-exists", "\xE2\x88\x83(a,bc)\xE2\x88\x88S1 \xE2\x88\x83(ab,c)\xE2\x88\x88S1 bc\xE2\x89\xA0" "c", true, true, ""},
   };
   return w;
 }
